@@ -6,9 +6,34 @@ are the ones the model was written and validated against (lean/SaoVerif/Spec/Ske
 import json, os, re
 VERIF = os.path.dirname(os.path.dirname(os.path.abspath(__file__)))
 mangle = lambda f: re.sub(r"[^A-Za-z0-9]", "_", f)
+# files beyond the anchors whose decisions the property's model relies on just as much (the functions the anchored handlers call)
+exp = open(VERIF + "/lean/SaoVerif/Spec/SkeletonExpected.lean").read()
+blocks = re.findall(r"^def (\w+) : List \(String × List String\) := \[\n(.*?)^\]", exp, flags=re.M | re.S)
+getall = sorted(n for n, body in blocks if re.search(r'"Keeper\.GetAll\w*"', body) and "_keeper_" in n)
+EXTRA = {
+    # the timeout handler re-assigns through RandomSP and gives up through CancelOrder / RefundOrder
+    "C12": ["x/model/keeper/data_management.go", "x/order/keeper/order_management.go", "x/node/keeper/reputation.go"],
+    # every handler that creates or removes orders, shards, models and schedule entries
+    "C13": ["x/sao/keeper/msg_server_terminate.go", "x/sao/keeper/msg_server_cancel.go", "x/sao/keeper/msg_server_renew.go",
+            "x/sao/keeper/msg_server_store.go", "x/sao/keeper/msg_server_ready.go", "x/order/keeper/order_management.go",
+            "x/sao/keeper/expired_shard.go", "x/sao/keeper/timeout_order.go"],
+    "C11": ["x/sao/keeper/msg_server_terminate.go", "x/sao/keeper/msg_server_migrate.go", "x/order/keeper/order_management.go",
+            "x/node/keeper/shard_pledge_management.go"],
+    "C05": ["x/market/keeper/pool_management.go", "x/node/keeper/shard_pledge_management.go"],
+    "C16": ["x/order/genesis.go", "x/sao/keeper/msg_server_renew.go", "x/sao/keeper/msg_server_terminate.go"],
+    "C19": ["x/node/types/params.go"],
+}
 for l in open(VERIF + "/properties.jsonl"):
-    p = json.loads(l); pid = p["id"]; files = p["anchors"]["files"]
-    conj = " ∧\n    ".join(f"Generated.Skel.{mangle(f)} = Expected.Skel.{mangle(f)}" for f in files)
+    p = json.loads(l); pid = p["id"]; files = list(p["anchors"]["files"])
+    extra = [f for f in EXTRA.get(pid, []) if f not in files]
+    if pid == "C18":
+        # the export reads every store through its GetAll function, the import writes it back through the setters beside it
+        names = {mangle(f) for f in files}
+        extra_names = [n for n in getall if n not in names]
+    else:
+        extra_names = [mangle(f) for f in extra]
+    allnames = [mangle(f) for f in files] + extra_names
+    conj = "[" + ",\n     ".join(f"Generated.Skel.{n}" for n in allnames) + "] =\n    [" + ",\n     ".join(f"Expected.Skel.{n}" for n in allnames) + "]"
     txt = f"""import SaoVerif.Generated.Skeleton
 import SaoVerif.Spec.SkeletonExpected
 /-!
@@ -18,7 +43,7 @@ The extractor (harness/cmd/extract) regenerates, on every run and from the tree 
 function: its branching constructs in source order, each guard with its condition and with how its branch ends (`return <err>`,
 `continue`, `panic`, …). The hand-written model mirrors exactly these decisions (its `…Pre` / `…Guards` functions are the
 guards of the handlers, in their order). This theorem says that for the files the property is anchored in
-({', '.join(files)}) the regenerated skeletons equal the ones the model was written against. A change of a guard, of its
+({', '.join(files)}{'; and, because the anchored code calls into them, ' + ', '.join(extra_names) if extra_names else ''}) the regenerated skeletons equal the ones the model was written against. A change of a guard, of its
 order, or a new or removed branch breaks it: the correspondence then has to be re-established (the check searches the
 histories for a failing input and reports the violation either way).
 -/
